@@ -70,12 +70,15 @@ func (idx *index) insert(ctx context.Context, p pointer, persist bool) error {
 	idx.totalSize.Add(int64(p.size))
 	idx.persistHead = min(idx.persistHead, insertAt)
 
-	idx.mu.Unlock()
 	if !persist {
+		idx.mu.Unlock()
 		return nil
 	}
 
+	// prepare encodes the pointers, so it must run while the lock is still held (as
+	// in update); only the file I/O it returns happens after unlocking.
 	persistPointers := idx.indexPersist.prepare(idx.persistHead)
+	idx.mu.Unlock()
 	return persistPointers()
 }
 
